@@ -600,7 +600,35 @@ func genParseCase0(t *rapid.T) *ParseCase {
 			g.inf = append(g.inf, o)
 		}
 	}
-	switch rapid.IntRange(0, 4).Draw(t, "mode") {
+	switch rapid.IntRange(0, 5).Draw(t, "mode") {
+	case 5:
+		// a bracket literal that mixes plain elements and key: value pairs, or leaves a pair
+		// half-written: malformed whatever the operator table says
+		c.Mode = "mixed-literal"
+		n := rapid.IntRange(2, 4).Draw(t, "nentries")
+		pairAt := rapid.IntRange(0, n-1).Draw(t, "pairat")
+		invert := rapid.Bool().Draw(t, "invert") // all pairs but one plain element
+		var toks []string
+		toks = append(toks, "[")
+		for i := 0; i < n; i++ {
+			if i > 0 {
+				toks = append(toks, ",")
+			}
+			tokenPrint(fullParens(g.tree(rapid.IntRange(0, 1).Draw(t, "edepth"))), &toks)
+			if (i == pairAt) != invert {
+				toks = append(toks, ":")
+				tokenPrint(fullParens(g.tree(rapid.IntRange(0, 1).Draw(t, "vdepth"))), &toks)
+			}
+		}
+		toks = append(toks, "]")
+		// inside a larger expression half of the time
+		switch rapid.IntRange(0, 3).Draw(t, "context") {
+		case 0:
+			toks = append(append([]string{"f", "("}, toks...), ")")
+		case 1:
+			toks = append(toks, "[", "0", "]")
+		}
+		c.Src = joinTokens(t, toks)
 	case 0:
 		c.Mode = "full"
 		tr := g.tree(rapid.IntRange(1, 4).Draw(t, "depth"))
@@ -697,7 +725,7 @@ func tableAlphabet(ops []ref.Op) []string {
 }
 
 func TestC08(t *testing.T) {
-	R.Rule = "operator tables of 1-8 operators over a symbol alphabet (symbolic 1-3 characters, identifier-like incl. non-ASCII; prefix / postfix / infix left / right / non-associative; a symbol may be prefix and one other role; binding powers 0.5..13.5 incl. fractional, equal and built-in-colliding ones) and the built-in table; expression trees to depth 4 over atoms, all operator kinds, ?:, calls, method calls, dynamic calls, members, subscripts and list / map / object literals, rendered fully parenthesised, with the minimal parentheses the reference needs, with redundant ones, or without any; random token soup; exhaustive token sequences up to length 4 (quick) / 5 (thorough) over a 17-token alphabet for the built-in table and one shorter for three fixed custom tables; white space between tokens drawn from blanks and line breaks; one case in three first parses the same source with one or two sibling tables (powers differing only in the fraction, swapped / shifted powers, another fixity, reversed declaration order, one operator fewer) in the same process; oracle: reference precedence parser (accept / reject, tree, every node's span line and column), and round trip of the rendering; non-trivial = >= 2 different operators interacting, or a prefix / postfix next to an infix, or a rejected non-associative chain, or >= 3 tokens with >= 2 node kinds"
+	R.Rule = "operator tables of 1-8 operators over a symbol alphabet (symbolic 1-3 characters, identifier-like incl. non-ASCII; prefix / postfix / infix left / right / non-associative; a symbol may be prefix and one other role; binding powers 0.5..13.5 incl. fractional, equal and built-in-colliding ones) and the built-in table; expression trees to depth 4 over atoms, all operator kinds, ?:, calls, method calls, dynamic calls, members, subscripts and list / map / object literals, rendered fully parenthesised, with the minimal parentheses the reference needs, with redundant ones, or without any; random token soup; bracket literals mixing plain elements with key: value pairs (in a call, under a subscript, alone); exhaustive token sequences up to length 4 (quick) / 5 (thorough) over a 17-token alphabet for the built-in table and one shorter for three fixed custom tables; white space between tokens drawn from blanks and line breaks; one case in three first parses the same source with one or two sibling tables (powers differing only in the fraction, swapped / shifted powers, another fixity, reversed declaration order, one operator fewer) in the same process; oracle: reference precedence parser (accept / reject, tree, every node's span line and column), and round trip of the rendering; non-trivial = >= 2 different operators interacting, or a prefix / postfix next to an infix, or a rejected non-associative chain, or >= 3 tokens with >= 2 node kinds"
 	R.Assume = []string{"ref.Parse is the reading of the declarations' meaning; tables where one symbol has two infix/postfix roles or re-declares . ? or punctuation are out of domain; member names that are not identifier-like and operators of equal power but different associativity are unspecified (counted, tree not compared)"}
 	reportKnown(t, "C08")
 	runRegress(t, "C08")
